@@ -160,6 +160,7 @@ def run(chk):
     # returns "need more input" / "complete" with the flag still set, reading is resumed later with a stale flag and the next data is
     # parked as "pending input" while nothing is paused - nobody resumes the parser, the rest of the body is never delivered
     stale_rule(chk, repo)
+    resume_rules(chk, repo)
     hp = repo.func(HP, "HttpParser.feed_data")
     st = [s for s, _b in K.stmts(hp, "self._payload_has_more_data = payload_state == PayloadState.PAYLOAD_HAS_PENDING_INPUT")]
     loop = [w for w in ast.walk(hp.node) if isinstance(w, ast.While) and "self._payload_has_more_data" in norm.raw(w.test)]
@@ -276,6 +277,31 @@ def run(chk):
         chk.ok("C09.errors", pf[0][0], "body parser errors are set on the payload stream (the reader sees a payload error, not silence)")
     else:
         chk.violation("C09.errors", hp, "self._payload_parser.feed_data(...)", "except Exception: set_exception(payload, ...)", "a failing body parse is not reported on the stream")
+
+
+def resume_rules(chk, repo):
+    """C09.resume (F64): reading the stream of a finished message must not restart the parser that a *later* message's over-full stream
+    paused - each such restart pushes another decompressed slab past that stream's limit.
+    C09.lostparser (F65, known): the client protocol must not discard a parser that still holds received-but-parked input when the
+    connection is lost, otherwise a complete compressed response is truncated."""
+    rc = repo.func("aiohttp/streams.py", "StreamReader._read_nowait_chunk")
+    res = K.exprs(rc, "self._protocol.resume_reading()")
+    if not res:
+        chk.analysis_error("C09.resume: resume_reading() not found in StreamReader._read_nowait_chunk")
+    for c, _b in res:
+        if PC.has_lit(PC.pc(c), "self._eof", False) is not None:
+            chk.ok("C09.resume", c, "the consumption primitive resumes the transport only for a stream that is still receiving")
+        else:
+            chk.violation("C09.resume", c, K.short(c), "!(self._eof)",
+                          "a stream that already got EOF still calls resume_reading() when it is read: with pipelining every read of the finished request A restarts the parser that request B's over-full buffer paused, and B's 65 KB gzip body is decoded to 64 MiB before its handler has read a byte (limit 512 KiB)")
+    cl = repo.func("aiohttp/client_proto.py", "ResponseHandler.connection_lost")
+    drops = [a for a in ast.walk(cl.node) if isinstance(a, ast.Assign) and norm.raw(a.targets[0]) == "self._parser" and isinstance(a.value, ast.Constant) and a.value.value is None]
+    for a in drops:
+        if any(any(t in l.text for t in ("_payload.is_eof", "eof_deferred", "_payload.exception", "has_pending")) for c in PC.pc(a) for l in c):
+            chk.ok("C09.lostparser", a, "connection_lost() keeps the parser while it still holds parked input")
+        else:
+            chk.violation("C09.lostparser", a, "self._parser = None", "kept while the payload is neither at EOF nor failed",
+                          "connection_lost() discards the parser unconditionally; over TLS the last data and the close arrive in one read, so a parser paused by a full reader still holds the rest of an already received body: a valid 6 KB gzip response that inflates to 3 MB is cut at 1 MiB (`Connection closed`) or fails with ClientPayloadError although its terminating chunk was received")
 
 
 def stale_rule(chk, repo, rule="C09.pause.stale"):
